@@ -57,6 +57,17 @@ func (C14) Generate(rng *rand.Rand, tier string) []core.Case {
 		}
 		cases = append(cases, core.Case{Name: fmt.Sprintf("sess-large-range-%d", v), Ops: ops})
 	}
+	// sessions with different timeouts across a leader change: each one is re-armed with its own timeout
+	for v := 0; v < 2; v++ {
+		t1, t2 := 9, 3
+		if v == 1 {
+			t1, t2 = 3, 9
+		}
+		k1, k2 := core.Hex([]byte("lc/a")), core.Hex([]byte("lc/b"))
+		ops := []string{fmt.Sprintf("s.create %d", t1), fmt.Sprintf("s.create %d", t2), fmt.Sprintf("s.put %s 0", k1), fmt.Sprintf("s.put %s 1", k2), "s.dump",
+			"s.leaderchange", "s.dump", "s.advance 4", "s.dump", "s.keepalive 0", "s.keepalive 1", "s.advance 2", "s.dump"}
+		cases = append(cases, core.Case{Name: fmt.Sprintf("sess-timeouts-across-leader-change-%d", v), Ops: ops})
+	}
 	for i := 0; i < n; i++ {
 		timed := rng.Intn(8) == 0
 		race := !timed && rng.Intn(6) == 0
